@@ -108,7 +108,7 @@ pub fn format_duration(d: &Duration) -> String {
             if n < 0 {
                 neg = true;
             }
-            n as u64
+            n.unsigned_abs()
         })
         .unwrap_or_else(|| {
             let s = d.num_seconds();
